@@ -1055,6 +1055,8 @@ class Interp:
                 for a, b in zip(t.elts[i + 1:], v[len(v) - n_after:] if n_after else []):
                     self.assign(a, b)
                 return
+            if isinstance(v, (list, tuple)) and len(v) != len(t.elts) and not stars:
+                raise _PyRaise("ValueError")  # too many / not enough values to unpack
             if not isinstance(v, (list, tuple)) or len(v) != len(t.elts):
                 raise Undecided("tuple unpacking of a non-tuple")
             for a, b in zip(t.elts, v):
